@@ -22,7 +22,7 @@ RULE = ("case = (file of n records, position k, fault kind, blocked?, encoding).
         "last two, 11, 12, 16, 17, 32, 33), are crossed with every applicable fault kind: cut inside record k's data, cut inside its length field, "
         "oversize length; (message level, re-framed in place) undecodable MTI, non-numeric MTI, unconfigured bitmap bit, "
         "non-numeric length prefix, letter in an integer field, impossible date, malformed PDS header, DE55 ending inside a "
-        "TLV, trailing byte. distinct = distinct (file digest, k, fault kind); non-trivial = the fault changed record k")
+        "TLV, trailing byte, last length prefix pointing past the end, record cut down to a partial header. distinct = distinct (file digest, k, fault kind); non-trivial = the fault changed record k")
 COMPONENTS = {
     "real": ["cardutil.mciipm.IpmReader", "cardutil.mciipm.VbsReader", "cardutil.mciipm.Unblock1014",
              "cardutil.mciipm.IpmWriter (clean files)", "cardutil.iso8583.loads", "cardutil.cli.print_exception_details",
@@ -37,7 +37,7 @@ ASSUMPTIONS = ["a fault whose faulted record the strict reference reader classif
                "delivered records are judged"]
 
 MSG_FAULTS = ["mti_undecodable", "mti_nonnumeric", "unknown_bit", "bad_prefix", "bad_int", "bad_date", "bad_pds",
-              "icc_cut", "trailing_byte"]
+              "icc_cut", "trailing_byte", "overlong_prefix", "short_header"]
 FRAME_FAULTS = ["cut_in_data", "cut_in_length", "oversize_length"]
 
 
@@ -141,6 +141,22 @@ def plan_fault(kind, k, rec, rd, enc, cfg, offsets, blocked):
         a, _ = e["prefix"]
         d1 = e["data"][1]
         return [{"record": k, "faults": [faults.rep(a, d1 - a, E("001") + b"\x9a", kind)]}], []
+    if kind == "overlong_prefix":
+        # the LAST variable element declares more bytes than the record holds (pointer would run past the end)
+        e = next((x for x in reversed(sp["elems"]) if x["prefix"]), None)
+        if not e or e is not sp["elems"][-1]:
+            return None
+        a, b = e["prefix"]
+        cur = e["data"][1] - e["data"][0]
+        ls = b - a
+        more = cur + (1, 2, 7)[(k + len(rec)) % 3]
+        if more >= 10 ** ls:
+            return None
+        return [{"record": k, "faults": [faults.rep(a, ls, E(f"{more:0{ls}d}"), kind)]}], []
+    if kind == "short_header":
+        # the record is cut down to its MTI plus part of the bitmap (well framed at VBS level)
+        keep = (4, 5, 12, 19)[(k + len(rec)) % 4]
+        return [{"record": k, "faults": [{"kind": "truncate", "at": keep, "cls": kind}]}], []
     if kind == "trailing_byte":
         return [{"record": k, "faults": [{"kind": "extend", "hex": E(" ").hex(), "cls": kind}]}], []
 
